@@ -241,28 +241,42 @@ def rule_token_spelling(ctx: Ctx, rid="C06.TOKEN-SPELLING", directions=("lexer<=
     n = 0
     for tok, doc in ref.items():
         # emitting sources of this token: the rule of that name (minus remapped values) and remap entries
+        # an action may hand its token out under another type (`t.type = "NON_NEG_INTEGER"` when there is no fraction): such a rule
+        # emits several types, and which one depends on its code; what can be decided is that each of its lexemes is a documented
+        # spelling of ONE of them
+        def types_of(rule_):
+            ts = {rule_.name}
+            if rule_.action:
+                ts |= {t_.strip("'\"") for t_ in rule_.action.type_rewrites}
+            return ts
         sources = []
         r = lc.rule(tok)
+        retyping = [x for x in lc.rules if x.emits and x.action and x.action.type_rewrites and tok in types_of(x) and x.name != tok]
         if r is not None and r.emits:
-            if r.action and r.action.type_rewrites:
-                raise AnalysisError(f"{lc.name}.{tok}: the action re-types its token; spelling cannot be decided")
             sources.append((lc.index(tok), sorted(remap_by_rule.get(tok, {}))))
+        for x in retyping:
+            sources.append((lc.index(x.name), sorted(remap_by_rule.get(x.name, {}))))
         remap_lits = [(rule, lit) for rule, m_ in remap_by_rule.items() for lit, new in m_.items() if new == tok]
         con = f"language/lexer.py:{lc.name}.{tok}"
         if not sources and not remap_lits:
             raise AnalysisError(f"documented token {tok} has no emitting lexer rule (anchor vanished)")
         n += 1
+        multi = set()
+        for idx_, _ex in sources:
+            multi |= types_of(lc.rules[idx_])
+        doc_eff = doc if multi <= {tok} else "|".join(f"(?:{ref[t_]})" for t_ in sorted(multi) if t_ in ref)
         # one Lexicon whose alphabet also separates the character sets of all reference patterns
         cache = ctx.__dict__.setdefault("_spell_lex", {})
         if lc.name not in cache:
             cache[lc.name] = Lexicon(pats, names, extra_patterns=sorted(set(ref.values())))
         L = cache[lc.name]
-        R = cache.setdefault((lc.name, doc), Matcher(build_nfa([doc]), L.alpha, cut=False))
+        R = cache.setdefault((lc.name, doc_eff), Matcher(build_nfa([doc_eff]), L.alpha, cut=False))
         rstart = R.starts()[0]
+        retyper_idx = {lc.index(x.name) for x in lc.rules if x.emits and x.action and x.action.type_rewrites}
 
         def accepts(q, a):
             return R.step(q, a)[1] is not None
-        site = (r.site if r is not None else lc.rule(remap_lits[0][0]).site)
+        site = r.site if r is not None else (lc.rule(remap_lits[0][0]).site if remap_lits else lc.rules[sources[0][0]].site)
         if "lexer<=doc" in directions:
             bad = None
             for idx, excluded in sources:
@@ -298,7 +312,7 @@ def rule_token_spelling(ctx: Ctx, rid="C06.TOKEN-SPELLING", directions=("lexer<=
                           f"on input {bad[0]!r} the lexer hands the parser {tok} for the text {bad[1]!r}, which is not the documented "
                           f"spelling {doc!r}: a text outside the language is read as this token", witness=bad[0] if bad else None,
                           site=site, text=f"{tok} accepts more than {doc}")
-        if "doc<=lexer" in directions:
+        if "doc<=lexer" in directions and tok != lc.rules[id_rule(ctx)].name:
             M = L.M
             emitters = {idx for idx, _ in sources} | {lc.index(rule) for rule, _ in remap_lits}
 
@@ -327,8 +341,8 @@ def rule_token_spelling(ctx: Ctx, rid="C06.TOKEN-SPELLING", directions=("lexer<=
                 fin = node[1]
                 w = _text(_path(parent, node))
                 okk = fin is not None and fin[1] and fin[0] in emitters
-                if okk:
-                    # the final type after remapping must be this token
+                if okk and fin[0] not in retyper_idx:
+                    # the final type after remapping must be this token (a re-typing action decides by its own code)
                     rn = names[fin[0]]
                     typ = remap_by_rule.get(rn, {}).get(w, rn)
                     okk = typ == tok
